@@ -171,22 +171,25 @@ func DoConstructSequenceDiagrams(
 				} else if len(cmdContextParam.Group) > 0 {
 					logger.Warnf("Ignoring groupby passed from command line")
 				}
-				cmdutils.TransformBlackboxesToUptos(bbsAll, bbs2, cmdutils.BBEndpointCollection)
+				// The blackboxes of this endpoint are laid over those of the application for this diagram only; the
+				// application's entries are shared, so that their visit counts add up over all diagrams.
+				bbsEndpoint := make(map[string]*cmdutils.Upto, len(bbsAll)+len(bbs2))
+				for bbKey, bbVal := range bbsAll {
+					bbsEndpoint[bbKey] = bbVal
+				}
+				cmdutils.TransformBlackboxesToUptos(bbsEndpoint, bbs2, cmdutils.BBEndpointCollection)
 				sd = &SequenceDiagParam{
 					Endpoints:       sdEndpoints,
 					AppLabeler:      spapp,
 					EndpointLabeler: spep,
 					Title:           spseqtitle.FmtSeq(endpoint.GetName(), endpoint.GetLongName(), varrefs),
-					Blackboxes:      bbsAll,
+					Blackboxes:      bbsEndpoint,
 					AppName:         fmt.Sprintf("'%s :: %s'", appName, endpoint.GetName()),
 					Group:           groupAttr,
 				}
 				out, err := GenerateSequenceDiag(model, sd, logger)
 				if err != nil {
 					return nil, err
-				}
-				for indx := range bbs2 {
-					delete(bbsAll, bbs2[indx][0])
 				}
 				result[outputDir] = out
 			}
